@@ -32,6 +32,10 @@ type Part struct {
 	// and run (a package-level variable of the generator's package); "lazy" (Text parts) a snippet.Func
 	// closure that reads a scratch field of the generator which is overwritten right after Render returns.
 	Via string `json:"via,omitempty"`
+	// Locate: "import/path.Name" of a type of a package the processed package imports: a comment saying in
+	// which package Context.LocateInPackage finds the type's position (taken from go/types' import graph,
+	// without asking gengo for that package first).
+	Locate string `json:"locate,omitempty"`
 	// Bulk: a valid declaration of about Bulk KiB (a generated table), named after Text.
 	Bulk int `json:"bulk,omitempty"`
 }
